@@ -59,6 +59,25 @@ def full_alphabet():
     evs += [["import", m] for m in H.MODULES]
     evs += [["init", e, "public"] for e in H.INIT_ENTRIES + H.RELOAD_ENTRIES]
     evs += [["calc", c, "public"] for c in H.CALCS]
+    evs += bare_table_events(True)
+    return evs
+
+
+BARE_PROPS = ["covalent_radius", "covalent_radius_uncertainty", "crystal_structure", "neutron", "neutron_activation", "xray",
+              "K_alpha", "K_alpha_units", "magnetic_ff"]
+BARE_CALCS = ["neutron_sld", "xray_sld", "volume", "activation", "magnetic", "formula_methods"]
+
+
+def bare_table_events(full):
+    """First touches THROUGH A PRIVATE TABLE THAT NEVER INITIALISED THE GROUP (the user guide's mass-and-density-only
+    table): the class-level hook that fires is the public table's, so these are first-touch events of the public
+    loaders too. What the bare table's own atom serves is whatever the canonical order serves for the same probe."""
+    evs = []
+    for p in BARE_PROPS:
+        for r in (("el+", "iso", "ion") if full else ("el+",)):
+            for means in (("read", "hasattr") if full else ("hasattr",)):
+                evs.append([means, p, r, "T0"])
+    evs += [["calc", c, "T0"] for c in (BARE_CALCS if full else BARE_CALCS[:2])]
     return evs
 
 
@@ -73,6 +92,7 @@ def reduced_alphabet():
     evs += [["init", e, "public"] for e in H.INIT_ENTRIES + H.RELOAD_ENTRIES]
     # the event-only calculators (printed tables, legacy entry points) are in the full alphabet only
     evs += [["calc", c, "public"] for c in H.CALCS if c not in H.EVENT_ONLY_CALCS[2:]]
+    evs += bare_table_events(False)
     return evs
 
 
@@ -260,9 +280,9 @@ def tasks(tier):
         import os
         seed = int(os.environ.get("VERIF_SEED", "1") or "1")
         t = [("singles", task_singles, dict(par=4))]
-        # 4 of the 10 shards of the same-group pairs, chosen by the seed
-        for k in range(4):
-            sh = (seed * 4 + k) % 10
+        # 3 of the 10 shards of the same-group pairs, chosen by the seed
+        for k in range(3):
+            sh = (seed * 3 + k) % 10
             t.append(("pairs-same-group-%d" % sh, task_pairs, dict(par=2, shard=sh, nshards=10, same_group_only=True)))
         for k in range(3):
             t.append(("random-%d" % k, task_random, dict(n=50, max_len=8, reduced=(k != 0))))
